@@ -1,0 +1,39 @@
+//go:build verif
+
+package meter
+
+// Contracts for package meter (comment-only; build tag verif). Checked by
+// /verif/vcgen. C18 (sequential clauses): a progress meter changes nothing but
+// its own fields and writes only through its own writer p.w; the scan state
+// is untouched. Timing between the ticker goroutine and Done() is not decided
+// by this family (the `go` statement and the mutex are dropped by the
+// translation).
+
+//@ iface Progress.Start
+//@   modifies fieldmem(progressMeter.format), fieldmem(progressMeter.lastShownCount), fieldmem(progressMeter.spinnerIndex), fieldmem(progressMeter.ticker), fieldmem(progressMeter.count)
+//@ iface Progress.Inc
+//@   modifies fieldmem(progressMeter.count)
+//@ iface Progress.Add
+//@   modifies fieldmem(progressMeter.count)
+//@ iface Progress.Done
+//@   modifies fieldmem(progressMeter.ticker)
+
+//@ func (*progressMeter).Start
+//@   modifies fieldmem(progressMeter.format), fieldmem(progressMeter.lastShownCount), fieldmem(progressMeter.spinnerIndex), fieldmem(progressMeter.ticker), fieldmem(progressMeter.count)
+//@ func (*progressMeter).Inc
+//@   modifies fieldmem(progressMeter.count)
+//@ func (*progressMeter).Add
+//@   modifies fieldmem(progressMeter.count)
+//@ func (*progressMeter).Done
+//@   modifies fieldmem(progressMeter.ticker)
+//@   call 0 fmt.Fprintf assert arg_0 == box(p.w, "io.Writer")
+//@ func (noProgressMeter).Start
+//@   pure
+//@ func (noProgressMeter).Inc
+//@   pure
+//@ func (noProgressMeter).Add
+//@   pure
+//@ func (noProgressMeter).Done
+//@   pure
+
+//@ property C18: (*progressMeter).Start (*progressMeter).Inc (*progressMeter).Add (*progressMeter).Done (noProgressMeter).Start (noProgressMeter).Inc (noProgressMeter).Add (noProgressMeter).Done
